@@ -918,7 +918,7 @@ pub fn byte_case(max_len: usize) -> impl Strategy<Value = ByteCase> {
         needle_set(),
         hay_len(max_len),
         placement(),
-        0u8..8,
+        0u8..10,
         (0u32..65536, 0u32..65536),
         any::<u64>(),
         0usize..16,
@@ -974,10 +974,29 @@ pub fn byte_case(max_len: usize) -> impl Strategy<Value = ByteCase> {
                         }
                         hay[at(fa)] = fill;
                     }
-                    _ => {
+                    7 => {
                         // a match only in the last / first few bytes
                         let p = if var % 2 == 0 { len - 1 - at(fa) % len.min(40) } else { at(fa) % len.min(40) };
                         hay[p] = needles[var % ar];
+                    }
+                    8 => {
+                        // a clean prefix, then a dense run of matches (every lane of a vector / block matches somewhere)
+                        let p = at(fa);
+                        let l = 1 + at(fb) % 300;
+                        for i in p..(p + l).min(len) {
+                            hay[i] = needles[(i + var) % ar];
+                        }
+                    }
+                    _ => {
+                        // a span in which consecutive 32-byte stretches carry matches in different lane phases
+                        let p = at(fa);
+                        let l = 64 + at(fb) % 256;
+                        let k = [2usize, 4, 8][var % 3];
+                        for i in p..(p + l).min(len) {
+                            if i % k == (i / 32) % k {
+                                hay[i] = needles[(i + var) % ar];
+                            }
+                        }
                     }
                 }
             }
@@ -1066,6 +1085,74 @@ pub fn pbt(ctx: &Ctx, mode: Mode) -> Frag {
         }
     }
     st.frag
+}
+
+/// Every needle VALUE: all 256 single needles, all 65536 ordered pairs, and triples (n1, n2, f(n1, n2)),
+/// over haystacks that contain every byte value (a permutation of 0..=255, twice), so that a routine that
+/// treats particular needle values specially (case folding, duplicate detection, sign tricks) is exercised
+/// for each of them. Haystack lengths 512 and 200 (a prefix), three placements.
+pub fn sweep(ctx: &Ctx, mode: Mode) -> Frag {
+    let mut frag = ctx.frag("bytes-sweep");
+    let impls = impls_for_level(ctx.level);
+    let mut arena = Arena::new(8);
+    let perm: Vec<u8> = (0..512usize).map(|i| ((i * 167 + 13 + (i / 256) * 91) % 256) as u8).collect();
+    let emu = mvcore::cfgs::cfg_emu();
+    let mut idx = 0usize;
+    'outer: for (hi, hay_src) in [&perm[..], &perm[..200], &perm[37..37 + 130]].iter().enumerate() {
+        for place in [Place::Mid(0), Place::Mid(1), Place::End] {
+            for arity in 1..=3usize {
+                idx += 1;
+                if !ctx.mine(idx) {
+                    continue;
+                }
+                if emu && (hi > 0 || !matches!(place, Place::Mid(1))) && arity > 1 {
+                    continue; // the emulated vectors are slow: one haystack / placement for the pair sweeps
+                }
+                let placed = arena.put(hay_src, place);
+                let total: usize = if arity == 1 { 256 } else { 65536 };
+                for code in 0..total {
+                    let n1 = (code & 0xFF) as u8;
+                    let n2 = (code >> 8) as u8;
+                    let n3 = n1 ^ n2.rotate_left(3) ^ 0x55;
+                    let needles: Vec<u8> = match arity {
+                        1 => vec![n1],
+                        2 => vec![n1, n2],
+                        _ => vec![n1, n2, n3],
+                    };
+                    let e = expect_naive(&needles, placed);
+                    frag.evaluations += 1;
+                    frag.nontrivial_enum += 1;
+                    for &imp in impls.iter() {
+                        if imp == bytes::SMALL4 || imp == bytes::SMALL8 {
+                            continue;
+                        }
+                        let srch = match bytes::make(imp, &needles) {
+                            Some(x) => x,
+                            None => continue,
+                        };
+                        let r = catch_unwind(AssertUnwindSafe(|| run_ops(&*srch, imp, arity, placed, mode.ops & (OP_FIND | OP_RFIND | OP_COUNT), &e, mode.judge_values)));
+                        let bad = match r {
+                            Ok(None) => None,
+                            Ok(Some((op, ex, ob))) => Some(violation_json(ctx, imp, op_name(op), &needles, placed, place, &ex, &ob, "wrong answer")),
+                            Err(p) if mode.judge_panics => {
+                                let msg = panic_msg(&p);
+                                Some(violation_json(ctx, imp, "panic", &needles, placed, place, "no panic", &msg, &format!("panic: {}", msg)))
+                            }
+                            Err(_) => None,
+                        };
+                        if let Some(v) = bad {
+                            frag.violation(v);
+                            break 'outer;
+                        }
+                    }
+                }
+                frag.class(&format!("needle value sweep, arity {}", arity));
+            }
+        }
+    }
+    frag.subspaces.push(json!({"what": "every needle value", "single": 256, "ordered_pairs": 65536, "triples": "(n1, n2, n1 ^ rotl(n2,3) ^ 0x55) for all 65536 (n1, n2)",
+        "haystacks": "a permutation of all 256 byte values twice (512 bytes), its 200-byte prefix, a 130-byte window", "placements": "aligned, aligned + 1, abutting the guard page"}));
+    frag
 }
 
 fn place_code(p: Place) -> u8 {
